@@ -233,6 +233,8 @@ def kstore32 (m : Reg) (off n k : Nat) (r : Reg) : Reg :=
   fun w => if off ≤ w ∧ w < off + n ∧ (k >>> (w - off)) % 2 = 1 then r (w - off) else m w
 def kstore64 (m : Reg) (off n k : Nat) (r : Reg) : Reg :=
   fun w => if off ≤ w ∧ w < off + n ∧ (k >>> ((w - off) / 2)) % 2 = 1 then r (w - off) else m w
+/-- `_mm_loadl_pi a p`: the two low lanes from memory, the two high lanes of `a` -/
+def loadl_pi (a m : Reg) (off : Nat) : Reg := fun k => if k < 2 then m (off + k) else a k
 /-- store of the `n` low lanes of `r` at word offset `off`; every other word keeps its value (the footprint of the store) -/
 def storew (m : Reg) (off n : Nat) (r : Reg) : Reg := fun w => if off ≤ w ∧ w < off + n then r (w - off) else m w
 
